@@ -53,6 +53,20 @@ def _json_equal(left: object, right: object) -> bool:
     return left == right
 
 
+def _member_name(
+    parent: Mapping[Union[str, int], object], part: Union[str, int]
+) -> Union[str, int]:
+    """Return the name of a member of _parent_ identified by pointer _part_.
+
+    A reference token that looks like an array index is parsed to an int. When
+    it addresses an object it is a member name, so use its string form, unless
+    the mapping really does have that integer as a key.
+    """
+    if isinstance(part, int) and part not in parent:
+        return str(part)
+    return part
+
+
 class Op(ABC):
     """One of the JSON Patch operations."""
 
@@ -102,7 +116,7 @@ class OpAdd(Op):
             else:
                 parent.insert(int(target), self.value)
         elif isinstance(parent, MutableMapping):
-            parent[target] = self.value
+            parent[_member_name(parent, target)] = self.value
         else:
             raise JSONPatchError(
                 f"unexpected operation on {parent.__class__.__name__!r}"
@@ -143,8 +157,11 @@ class OpAddNe(OpAdd):
                 parent.append(self.value)
             else:
                 parent.insert(int(target), self.value)
-        elif isinstance(parent, MutableMapping) and target not in parent:
-            parent[target] = self.value
+        elif (
+            isinstance(parent, MutableMapping)
+            and _member_name(parent, target) not in parent
+        ):
+            parent[_member_name(parent, target)] = self.value
         return data
 
 
@@ -178,7 +195,7 @@ class OpAddAp(OpAdd):
             else:
                 parent.insert(int(target), self.value)
         elif isinstance(parent, MutableMapping):
-            parent[target] = self.value
+            parent[_member_name(parent, target)] = self.value
         else:
             raise JSONPatchError(
                 f"unexpected operation on {parent.__class__.__name__!r}"
@@ -211,7 +228,7 @@ class OpRemove(Op):
         elif isinstance(parent, MutableMapping):
             if obj is UNDEFINED:
                 raise JSONPatchError("can't remove nonexistent property")
-            del parent[self.path.parts[-1]]
+            del parent[_member_name(parent, self.path.parts[-1])]
         else:
             raise JSONPatchError(
                 f"unexpected operation on {parent.__class__.__name__!r}"
@@ -249,7 +266,7 @@ class OpReplace(Op):
         elif isinstance(parent, MutableMapping):
             if obj is UNDEFINED:
                 raise JSONPatchError("can't replace nonexistent property")
-            parent[self.path.parts[-1]] = self.value
+            parent[_member_name(parent, self.path.parts[-1])] = self.value
         else:
             raise JSONPatchError(
                 f"unexpected operation on {parent.__class__.__name__!r}"
@@ -287,7 +304,7 @@ class OpMove(Op):
         if isinstance(source_parent, MutableSequence):
             del source_parent[int(self.source.parts[-1])]
         if isinstance(source_parent, MutableMapping):
-            del source_parent[self.source.parts[-1]]
+            del source_parent[_member_name(source_parent, self.source.parts[-1])]
 
         # The source value is added to the target location, as if by "add".
         return OpAdd(self.dest, source_obj).apply(data)
